@@ -315,6 +315,13 @@ func checkMain(args []string) int {
 	}
 	deadline := t0.Add(wallGuard)
 	raceSeen := map[string]*violGroup{}
+	type valJob struct {
+		st   *runStats
+		pkg  string
+		rep  *Replay
+		want string
+	}
+	var valJobs []valJob
 
 	for _, run := range spec.Runs {
 		ts, ok := run.Tiers[*tier]
@@ -491,13 +498,13 @@ func checkMain(args []string) int {
 			fmt.Fprintf(os.Stderr, "run %s: paths=%d ok=%d infeasible=%d outcomes=%v covers=%v wall=%.1fs\n", run.Name, st.Paths, st.Ok, st.Infeasible, st.Outcomes, st.Covers, st.WallS)
 		}
 
-		// differential validation of passing paths (native replay of observations)
+		// differential validation of passing paths is batched after all runs (one native build)
 		nval := ts.Validate
 		if nval == 0 {
 			if *tier == "quick" {
-				nval = 16
+				nval = 8
 			} else {
-				nval = 64
+				nval = 32
 			}
 		}
 		if nval > 0 && !run.NoReplay && len(st.passing) > 0 {
@@ -505,25 +512,36 @@ func checkMain(args []string) int {
 			if len(idxs) > nval {
 				idxs = idxs[:nval]
 			}
-			var reps []*Replay
 			for _, i := range idxs {
-				reps = append(reps, &Replay{Pkg: run.Pkg, Func: run.Func, Inputs: st.passing[i].Model, Params: ts.Params})
+				valJobs = append(valJobs, valJob{st: st, pkg: run.Pkg, rep: &Replay{Pkg: run.Pkg, Func: run.Func, Inputs: st.passing[i].Model, Params: ts.Params}, want: obsText(st.passing[i].Obs)})
 			}
-			outs, err := nativeReplay(&spec, run.Pkg, reps, overlay)
-			if err != nil {
-				inconclusive = append(inconclusive, run.Name+": native validation failed to run: "+err.Error())
+		}
+	}
+
+	// native validation: one go test per harness package
+	byPkg := map[string][]int{}
+	for i, j := range valJobs {
+		byPkg[j.pkg] = append(byPkg[j.pkg], i)
+	}
+	for pkg, ids := range byPkg {
+		var reps []*Replay
+		for _, i := range ids {
+			reps = append(reps, valJobs[i].rep)
+		}
+		outs, err := nativeReplay(&spec, pkg, reps, overlay)
+		if err != nil {
+			inconclusive = append(inconclusive, "native validation failed to run: "+err.Error())
+			continue
+		}
+		for k, i := range ids {
+			o := outs[k]
+			j := valJobs[i]
+			got := strings.Join(o.Obs, "\n")
+			if o.Crash != "" || o.Infeasible || len(o.Failed) > 0 || len(o.Panics) > 0 || j.want != got {
+				j.st.ValidateMismatch++
+				inconclusive = append(inconclusive, fmt.Sprintf("%s: ENGINE-MISMATCH native replay of a passing path differs: crash=%q infeasible=%v failed=%v panics=%v\nwant obs:\n%s\ngot obs:\n%s\nmodel=%v", j.st.Name, o.Crash, o.Infeasible, o.Failed, o.Panics, j.want, got, j.rep.Inputs))
 			} else {
-				for k, i := range idxs {
-					o := outs[k]
-					want := obsText(st.passing[i].Obs)
-					got := strings.Join(o.Obs, "\n")
-					if o.Crash != "" || o.Infeasible || len(o.Failed) > 0 || len(o.Panics) > 0 || want != got {
-						st.ValidateMismatch++
-						inconclusive = append(inconclusive, fmt.Sprintf("%s: ENGINE-MISMATCH native replay of a passing path differs: crash=%q infeasible=%v failed=%v panics=%v\nwant obs:\n%s\ngot obs:\n%s\nmodel=%v", run.Name, o.Crash, o.Infeasible, o.Failed, o.Panics, want, got, st.passing[i].Model))
-					} else {
-						st.Validated++
-					}
-				}
+				j.st.Validated++
 			}
 		}
 	}
